@@ -48,6 +48,66 @@ impl Call {
         v.extend_from_slice(&body);
         v
     }
+    /// as a record of several fragments (RFC 5531 section 11): the first fragment holds at
+    /// least the 24 bytes the signature looks at; empty fragments may sit anywhere behind it
+    pub fn encode_tcp_fragments(&self, rng: &mut crate::rng::Rng) -> Vec<u8> {
+        let body = self.encode();
+        let n = rng.range(2, 4) as usize;
+        let mut cuts: Vec<usize> = vec![rng.range(24, body.len() as u64) as usize];
+        for _ in 2..n {
+            cuts.push(rng.range(24, body.len() as u64) as usize);
+        }
+        cuts.sort();
+        let mut parts: Vec<&[u8]> = Vec::new();
+        let mut prev = 0;
+        for c in cuts.iter().chain(std::iter::once(&body.len())) {
+            parts.push(&body[prev..*c]);
+            prev = *c;
+        }
+        let mut v = Vec::new();
+        for (i, part) in parts.iter().enumerate() {
+            let last = i + 1 == parts.len();
+            v.extend_from_slice(&((if last { 0x8000_0000u32 } else { 0 }) | part.len() as u32).to_be_bytes());
+            v.extend_from_slice(part);
+            if !last && rng.chance(1, 3) {
+                // an empty fragment in the middle of the record
+                v.extend_from_slice(&[0, 0, 0, 0]);
+            }
+        }
+        v
+    }
+}
+
+/// Split a TCP payload that consists of exactly one record (one or more fragments, the last one
+/// - and only the last one - with the last-fragment bit) into the record's body.
+pub fn defragment(p: &[u8]) -> Option<(Vec<u8>, usize)> {
+    let mut body = Vec::new();
+    let mut i = 0usize;
+    let mut n = 0usize;
+    loop {
+        if i + 4 > p.len() {
+            return None;
+        }
+        let m = u32::from_be_bytes([p[i], p[i + 1], p[i + 2], p[i + 3]]);
+        let l = (m & 0x7fff_ffff) as usize;
+        i += 4;
+        if i + l > p.len() {
+            return None;
+        }
+        body.extend_from_slice(&p[i..i + l]);
+        i += l;
+        n += 1;
+        if m & 0x8000_0000 != 0 {
+            break;
+        }
+        if n > 64 {
+            return None;
+        }
+    }
+    if i != p.len() {
+        return None;
+    }
+    Some((body, n))
 }
 
 /// Strict XDR reader for a call message (no record mark).
